@@ -1,0 +1,80 @@
+"""Fault-injection points used by the external verification harness.
+
+Only imported when the environment variable LOKY_VERIF is set; inert unless LOKY_VERIF_PLAN
+names a JSON plan file: a list of entries
+  {"label": str, "process": "worker"|"parent"|"tracker"|"any", "ordinal": int|null,
+   "nth": int, "action": "kill:<signum>"|"exit:<code>"|"pause:<token path>"|"delay:<seconds>"
+                          |"partial"}
+An entry fires at the nth time `point(label)` is reached in a matching process.
+"""
+import json
+import os
+import signal
+import time
+
+_plan = None
+_hits = {}
+
+
+def _load():
+    global _plan
+    path = os.environ.get("LOKY_VERIF_PLAN")
+    _plan = []
+    if path:
+        try:
+            with open(path) as f:
+                _plan = json.load(f)
+        except Exception:
+            _plan = []
+    return _plan
+
+
+def _role():
+    import multiprocessing as mp
+
+    name = mp.current_process().name
+    if name.startswith("LokyProcess") or name.startswith("LokyInitMainProcess"):
+        try:
+            return "worker", int(name.rsplit("-", 1)[1])
+        except Exception:
+            return "worker", None
+    if os.environ.get("LOKY_VERIF_ROLE") == "tracker":
+        return "tracker", None
+    return "parent", None
+
+
+def point(label, **ctx):
+    plan = _plan if _plan is not None else _load()
+    if not plan:
+        return None
+    n = _hits[label] = _hits.get(label, 0) + 1
+    role, ordinal = _role()
+    for e in plan:
+        if e.get("label") != label or e.get("nth", 1) != n:
+            continue
+        if e.get("process", "any") not in ("any", role):
+            continue
+        if e.get("ordinal") is not None and e["ordinal"] != ordinal:
+            continue
+        action = e["action"]
+        log = os.environ.get("LOKY_VERIF_LOG")
+        if log:
+            with open(log, "a") as f:
+                f.write(f"{os.getpid()} {role} {ordinal} {label} {n} {action}\n")
+        kind, _, arg = action.partition(":")
+        if kind == "kill":
+            os.kill(os.getpid(), int(arg))
+            time.sleep(30)
+        elif kind == "exit":
+            os._exit(int(arg))
+        elif kind == "delay":
+            time.sleep(float(arg))
+        elif kind == "pause":
+            open(arg + ".reached", "w").close()
+            t0 = time.time()
+            while not os.path.exists(arg + ".go") and time.time() - t0 < 120:
+                time.sleep(0.005)
+        elif kind == "partial":
+            return "partial"
+        return kind
+    return None
